@@ -203,15 +203,16 @@ class GMRF(Distribution):
                 raise NotImplementedError("Sampling not implemented for periodic boundary conditions in 2D")
 
             if rng is not None:
-                xi = rng.standard_normal((self.dim, N)) + 1j*rng.standard_normal((self.dim, N))
+                xi = rng.standard_normal((self._diff_op.shape[0], N))   # standard Gaussian
             else:
-                xi = np.random.randn(self.dim, N) + 1j*np.random.randn(self.dim, N)
-            
-            F = dft(self.dim, scale='sqrtn')   # unitary DFT matrix
-            eigv = np.hstack([self._L_eigval, self._L_eigval[-1]])  # repeat last eigval to complete dim
-            L_sqrt = diags(np.sqrt(eigv)) 
+                xi = np.random.randn(self._diff_op.shape[0], N)   # standard Gaussian
+
+            # The precision D.T@D of the periodic operator is not circulant (the wrap-around difference
+            # enters twice), so it is not diagonalized by the DFT. Sample through the Cholesky factor of
+            # the (regularized) precision instead, as for the Neumann case.
             # spsolve returns a 1D array for a single right-hand side: keep one column per sample
-            s = self.mean[:, np.newaxis] + (1/np.sqrt(self.prec))*np.real(F.conj() @ splinalg.spsolve(L_sqrt, xi).reshape(self.dim, N))
+            s = self.mean[:, np.newaxis] + (1/np.sqrt(self.prec))* \
+                splinalg.spsolve(self._chol.T, (splinalg.spsolve(self._chol, (self._diff_op.T @ xi)))).reshape(self.dim, N)
             
         elif (self._bc_type == 'neumann'):
 
